@@ -65,6 +65,99 @@ LINK_LINE = re.compile(rb"^ *(hardlink|symlink) +(.*)$", re.S)
 DUP_LINE = re.compile(rb"^ *(\d+) (.*)$", re.S)
 
 
+def pool_changes(fs, a, rng):
+    """File-system changes between two pool runs; returns counts per kind."""
+    n = dict(removed=0, moved_file=0, moved_link=0, file_to_link=0, retargeted=0)
+    files = [x for x in fs.files() if not fs.links_of(x[0], x[1])]
+    rng.shuffle(files)
+    for (d, s) in files[:2]:
+        fs.remove(d, s)
+        n["removed"] += 1
+    others = lambda d: [x for x in a.disks if x != d]
+    for (d, s) in files[2:4]:
+        if others(d):
+            d2 = rng.choice(others(d))
+            if scen._clear_path(fs, d2, s):
+                fs.rename(d, s, d2, s)
+                n["moved_file"] += 1
+    for (d, s) in files[4:5]:
+        if others(d):
+            d2 = rng.choice(others(d))
+            if scen._clear_path(fs, d2, s):
+                fs.remove(d, s)
+                fs.symlink(d2, s, b"../some/target%d" % rng.randint(0, 9))
+                n["file_to_link"] += 1
+    syms = [(d, s) for d in a.disks for s, e in fs.entries[d].items() if e[0] == "symlink"]
+    rng.shuffle(syms)
+    for (d, s) in syms[:2]:
+        tgt = fs.entries[d][s][1]
+        if others(d) and rng.random() < 0.7:
+            d2 = rng.choice(others(d))
+            if scen._clear_path(fs, d2, s):
+                fs.remove(d, s)
+                fs.symlink(d2, s, tgt)
+                n["moved_link"] += 1
+        else:
+            fs.remove(d, s)
+            fs.symlink(d, s, tgt + b".new")
+            n["retargeted"] += 1
+    return n
+
+
+def judge_pool(a, poolb, c, use_share, share, V, rep, label):
+    """The pool dir holds exactly one symlink per recorded file/link name, resolving to a recorded entry of that name;
+    foreign regular files kept, no empty dirs. Returns the number of links found."""
+    want = {}
+    for f in c.files:
+        want.setdefault(f.sub, set()).add(c.disk_name(f.disk))
+    for l in c.links:
+        want.setdefault(l["sub"], set()).add(c.disk_name(l["disk"]))
+    found = {}
+    foreign = []
+    emptydirs = []
+    for root, dirs, files in os.walk(poolb):
+        rel = root[len(poolb):].lstrip(b"/")
+        if not dirs and not files and rel:
+            emptydirs.append(rel)
+        for n in files + [d_ for d_ in dirs if os.path.islink(os.path.join(root, d_))]:
+            p = os.path.join(root, n)
+            r_ = rel + b"/" + n if rel else n
+            if os.path.islink(p):
+                found[r_] = os.readlink(p)
+            else:
+                foreign.append(r_)
+    if set(found) != set(want):
+        V.append(("pool-links-differ", "%s: pool has extra links %s, lacks recorded names %s" %
+                  (label, evidence.jsonable(sorted(set(found) - set(want))[:3]), evidence.jsonable(sorted(set(want) - set(found))[:3])), rep))
+        return len(found)
+    for sub, tgt in found.items():
+        ok = False
+        for dn in want[sub]:
+            di = a.disk_names.index(dn.decode())
+            real = os.path.join(os.fsencode(a.ddir(di)), sub)
+            exp1 = os.path.join(os.fsencode(share), dn, sub) if use_share else real
+            if tgt == exp1:
+                # must resolve to the recorded entry (through the share dir, but not through the final component, which
+                # may itself be a symlink)
+                try:
+                    rp1 = os.path.realpath(os.path.join(os.path.dirname(os.path.join(poolb, sub)), tgt)) if not tgt.startswith(b"/") else tgt
+                    parent_real = os.path.realpath(os.path.dirname(rp1))
+                    resolved = os.path.join(parent_real, os.path.basename(rp1))
+                    if resolved == os.path.join(os.path.realpath(os.path.dirname(real)), os.path.basename(real)) and os.path.lexists(resolved):
+                        ok = True
+                except OSError:
+                    pass
+        if not ok:
+            V.append(("pool-link-does-not-resolve", "%s: pool link %r -> %r does not resolve to the recorded entry (recorded on %s)" %
+                      (label, sub, tgt, evidence.jsonable(sorted(want[sub]))), rep))
+            break
+    if foreign != [b"foreign-regular-file"]:
+        V.append(("pool-foreign-files-not-kept", "%s: regular files in the pool dir after pool: %s" % (label, evidence.jsonable(foreign)), rep))
+    if emptydirs:
+        V.append(("pool-empty-dirs-left", "%s: empty dirs left in the pool: %s" % (label, evidence.jsonable(emptydirs[:3])), rep))
+    return len(found)
+
+
 def run_case(case):
     seed, idx, tier = case
     rng = random.Random("c20-%d-%d" % (seed, idx))
@@ -234,74 +327,28 @@ def run_case(case):
         if rp.rc != 0:
             V.append(("pool-fails", "pool rc=%s %s" % (rp.rc, rp.err[-200:].decode("latin-1")), rep))
         else:
-            want = {}
-            for (dn, sub, _f) in rec_files + rec_links:
-                want.setdefault(sub, set()).add(dn)
-            found = {}
-            foreign = []
-            emptydirs = []
             poolb = os.fsencode(pool)
-            for root, dirs, files in os.walk(poolb):
-                rel = root[len(poolb):].lstrip(b"/")
-                if not dirs and not files and rel:
-                    emptydirs.append(rel)
-                for n in files + [d_ for d_ in dirs if os.path.islink(os.path.join(root, d_))]:
-                    p = os.path.join(root, n)
-                    r_ = rel + b"/" + n if rel else n
-                    if os.path.islink(p):
-                        found[r_] = os.readlink(p)
-                    else:
-                        foreign.append(r_)
-            if set(found) != set(want):
-                V.append(("pool-links-differ", "pool has links %s, recorded names %s" %
-                          (evidence.jsonable(sorted(set(found) - set(want))[:3]), evidence.jsonable(sorted(set(want) - set(found))[:3])), rep))
-            else:
-                for sub, tgt in found.items():
-                    ok = False
-                    for dn in want[sub]:
-                        di = a.disk_names.index(dn.decode())
-                        real = os.path.join(os.fsencode(a.ddir(di)), sub)
-                        exp1 = os.path.join(os.fsencode(share), dn, sub) if use_share else real
-                        if tgt == exp1:
-                            # must resolve to the recorded entry
-                            try:
-                                st1 = os.lstat(os.path.join(poolb, sub))
-                                rp1 = os.path.realpath(os.path.join(os.path.dirname(os.path.join(poolb, sub)), tgt)) if not tgt.startswith(b"/") else tgt
-                                # resolve through the share dir but not through the final component (it may itself be a symlink)
-                                parent_real = os.path.realpath(os.path.dirname(rp1))
-                                resolved = os.path.join(parent_real, os.path.basename(rp1))
-                                if resolved == os.path.join(os.path.realpath(os.path.dirname(real)), os.path.basename(real)) and os.path.lexists(resolved):
-                                    ok = True
-                            except OSError:
-                                pass
-                    if not ok:
-                        V.append(("pool-link-does-not-resolve", "pool link %r -> %r does not resolve to the recorded entry" % (sub, tgt), rep))
-                        break
-            if foreign != [b"foreign-regular-file"]:
-                V.append(("pool-foreign-files-not-kept", "regular files in the pool dir after pool: %s" % evidence.jsonable(foreign), rep))
-            if emptydirs:
-                V.append(("pool-empty-dirs-left", "empty dirs left in the pool: %s" % evidence.jsonable(emptydirs[:3]), rep))
-            res["counters"]["pool_links"] = res["counters"].get("pool_links", 0) + len(found)
+            n = judge_pool(a, poolb, c, use_share, share, V, rep, "first pool run")
+            res["counters"]["pool_links"] = res["counters"].get("pool_links", 0) + n
             res["counters"]["views"] += 1
-            # second run after changes: stale links must go
-            victims = [x for x in fs.files() if fs.entries[x[0]][x[1]][0] == "file"][:2]
-            for (d, s) in victims:
-                if not fs.links_of(d, s):
-                    fs.remove(d, s)
-            r2 = a.cmd("sync", "-E", "-Z", variant=variant)
-            r3 = a.cmd("pool", variant=variant)
-            if r2.rc == 0 and r3.rc == 0:
+            # later runs after changes: stale links must go, and a name whose entry now lives elsewhere (moved to another
+            # disk, file replaced by a link on another disk, link retargeted) must get a link resolving to the new entry
+            nv0 = len(V)
+            for rnd in range(2):
+                nch = pool_changes(fs, a, rng)
+                r2 = a.cmd("sync", "-E", "-Z", variant=variant)
+                r3 = a.cmd("pool", variant=variant)
+                if r2.rc != 0 or r3.rc != 0:
+                    V.append(("sync-or-pool-fails-after-changes", "sync rc=%s pool rc=%s %s" % (r2.rc, r3.rc, (r2.err + r3.err)[-300:].decode("latin-1")), rep))
+                    break
                 c2 = a.load_content()
-                want2 = {f.sub for f in c2.files} | {l["sub"] for l in c2.links}
-                found2 = set()
-                for root, dirs, files in os.walk(poolb):
-                    rel = root[len(poolb):].lstrip(b"/")
-                    for n in files + [d_ for d_ in dirs if os.path.islink(os.path.join(root, d_))]:
-                        if os.path.islink(os.path.join(root, n)):
-                            found2.add(rel + b"/" + n if rel else n)
-                if found2 != want2:
-                    V.append(("pool-stale-links-after-update", "after removing files and sync+pool: extra %s missing %s" %
-                              (evidence.jsonable(sorted(found2 - want2)[:3]), evidence.jsonable(sorted(want2 - found2)[:3])), rep))
+                n = judge_pool(a, poolb, c2, use_share, share, V, rep, "pool run %d after %s" % (rnd + 2, nch))
+                res["counters"]["pool_links"] += n
+                res["counters"]["pool_reruns"] = res["counters"].get("pool_reruns", 0) + 1
+                for k_, v_ in nch.items():
+                    res["counters"]["poolchg_" + k_] = res["counters"].get("poolchg_" + k_, 0) + v_
+                if len(V) > nv0:
+                    break
         res["nontrivial"] = True
         res["nviews"] = res["counters"].get("views", 0)
         res["key"] = "%s|%d" % (sorted((k, str(v)) for k, v in cfg.items()), idx)
